@@ -280,6 +280,56 @@ def big_case(draw):
                 same_shape=draw(st.booleans()))
 
 
+@st.composite
+def bushy_case(draw):
+    """Larger n with LOW shape ranks: a root whose children are leaves, cherries, 3-stars and 4-stars (rank and
+    unrank stay fast there, while label counts exceed 64 bits)."""
+    a, b, c, d = draw(st.integers(0, 4)), draw(st.integers(0, 9)), draw(st.integers(0, 7)), draw(st.integers(0, 4))
+    if a + b + c + d < 2:
+        b += 2
+    n = a + 2 * b + 3 * c + 4 * d
+    perm = list(draw(st.permutations(list(range(n)))))
+    topo, i = [], 0
+    for size, cnt in ((1, a), (2, b), (3, c), (4, d)):
+        for _ in range(cnt):
+            blk = sorted(perm[i:i + size])
+            topo.append(blk[0] if size == 1 else blk)
+            i += size
+    return dict(n=n, topo=topo, lr=draw(BIG))
+
+
+def run_bushy(case, ctx):
+    import tskit
+    from tskit import combinatorics as cb
+
+    n, topo = case["n"], case["topo"]
+    ctx.nt(n >= 20)
+    ctx.label("n>=30", n >= 30)
+    tree = build_tree(tskit, topo, n)
+    c = canon_nested(topo)
+    ctx.check(canon_tree(tree) == c, "harness", "built tree does not have the generated topology")
+    r = tree.rank()
+    s, l = int(r[0]), int(r[1])
+    nl = cb.num_labellings(n, s)
+    ctx.label("labellings>=2^63", nl >= 2**63)
+    ctx.check(0 <= s < cb.num_shapes(n) and 0 <= l < nl, "rank_range", f"rank {(s, l)} outside ({cb.num_shapes(n)}, {nl})")
+    u = tskit.Tree.unrank(n, (s, l))
+    ctx.check(check_valid_topology_tree(ctx, u, n, "unrank_valid") == c, "unrank_rank_roundtrip",
+              f"unrank({n}, {(s, l)}) is a different topology")
+    ru = u.rank()
+    ctx.check((int(ru[0]), int(ru[1])) == (s, l), "rank_unrank_roundtrip", f"unrank({(s, l)}).rank() = {tuple(ru)}")
+    for lj in (case["lr"] % nl, nl - 1, 0):
+        t = tskit.Tree.unrank(n, (s, lj))
+        rj = t.rank()
+        ctx.check((int(rj[0]), int(rj[1])) == (s, lj), "rank_unrank_roundtrip", f"unrank({n}, {(s, lj)}).rank() = {tuple(rj)}")
+    for bad in (nl, nl + 1, -1):
+        try:
+            tskit.Tree.unrank(n, (s, bad))
+        except ValueError:
+            continue
+        ctx.fail("bad_rank_accepted", f"unrank({n}, ({s}, {bad})) accepted; num_labellings = {nl}")
+
+
 def run_big(case, ctx):
     import tskit
     from tskit import combinatorics as cb
@@ -680,6 +730,9 @@ SUBCHECKS = [
              rule="every n from 1 to 6 (quick) / 7 (thorough), all trees; non-trivial = n >= 4"),
     SubCheck("C15.roundtrip_big", run_big, strategy=big_case, quick=2000, thorough=60000,
              rule="n in [8,14] (all cases)", floors={"polytomy": 0.3}),
+    SubCheck("C15.bushy_big", run_bushy, strategy=bushy_case, quick=100, thorough=3000,
+             rule="n >= 20 leaves (up to 66): root with leaf / cherry / 3-star / 4-star children, label counts beyond 64 bits",
+             floors={"n>=30": 0.2, "labellings>=2^63": 0.2}),
     SubCheck("C15.rank_invariance", run_inv, strategy=inv_case, quick=5000, thorough=150000,
              rule="n >= 4", floors={"polytomy": 0.2, "leaves_renumbered": 0.3, "multiroot": 0.1, "unary": 0.2}),
     SubCheck("C15.bad_ranks", run_bad, strategy=bad_case, quick=1500, thorough=45000,
